@@ -7,6 +7,7 @@ PROFILE = dict(reuse=0.7, weights=dict(newer=4, delete=16, bind=14, message=50, 
 
 def universe(specs, dialect):
     s = session.run_history(specs, dialect)
+    universe.last_session = s
     return s.messages()
 
 
@@ -71,6 +72,20 @@ class Semantics(Stage):
                 selected += bool(got)
                 if parsed['decorated'] is not None and parsed['decorated'].matches(m) != got:
                     res.bad('decoration-changes-selection', '%r vs %r on %s' % (plain, deco, no_color(str(m))))
+            # second observation point: the lines that appear under `list <expression>` (first two matchers of a case)
+            if case['matchers'].index(mm) < 2 and '~' not in plain:
+                ss = universe.last_session
+                n0 = len(ss.out.buffer)
+                ss.ctl.process_command('list ' + deco if parsed['decorated'] is not None else 'list ' + plain)
+                listed = [l for l in ss.out.buffer[n0:].split('\n')[:-1] if session.MSG_LINE.match(l)]
+                must = session.render_shown([m for m in msgs if rm.ev(ast, m) is True])
+                may = set(session.render_shown([m for m in msgs if rm.ev(ast, m) is not False]))
+                missing = [l for l in must if l not in listed]
+                extra = [l for l in listed if l not in may]
+                if missing or extra:
+                    res.bad('list-vs-documented-meaning', '`list %s`: %d documented matches missing (%r), %d lines that must not match (%r)' % (
+                        plain, len(missing), missing[:1], len(extra), extra[:1]))
+                res.count('listings-compared')
             if ast == [[['star']], []] and selected != len(msgs):
                 res.bad('star-not-everything', plain)
             if ast == [[['bang']], []] and selected != 0:
@@ -100,7 +115,7 @@ class EnumArgs(Semantics):
     PROFILE = dict(reuse=0.5, weights=dict(newer=4, delete=6, bind=10, message=24, server_event=4, sync=2, enum=54))
 
     def examples(self, tier):
-        return 170 if tier == 'quick' else 14 * 1700
+        return 300 if tier == 'quick' else 14 * 2500
 
     def gen(self, d, tier):
         specs = histgen.history(d, nconn=d.int(1, 2), nmsg=d.int(8, 28), profile=self.PROFILE)
